@@ -597,23 +597,27 @@ func (c *Case) specRun(stopAt int) (o RunObs) {
 		if failed {
 			return fail(3)
 		}
-		for i, cl := range st.Calls {
-			if c.inRD(cl.Name) && cl.ID != "" {
-				if budget == 0 {
-					return fail(1)
-				}
-				_ = i
-				for _, r := range results {
-					if r.TCID == cl.ID {
-						r := r
-						o.Out = Out{Class: "final", Msg: &r}
-						return o
-					}
+		rdID := "" // getReturnDirectlyToolCallID: the id of the first call to a return-directly tool
+		if len(c.RD) > 0 {
+			for _, cl := range st.Calls {
+				if c.inRD(cl.Name) {
+					rdID = cl.ID
+					break
 				}
 			}
-			if c.inRD(cl.Name) {
-				break // only the first return-directly call counts (an empty id disables it)
+		}
+		if rdID != "" {
+			if budget == 0 {
+				return fail(1)
 			}
+			for _, r := range results {
+				if r.TCID == rdID {
+					r := r
+					o.Out = Out{Class: "final", Msg: &r}
+					return o
+				}
+			}
+			return fail(3)
 		}
 		hist = append(hist, am)
 		hist = append(hist, results...)
@@ -875,9 +879,15 @@ func genChunks(r *lib.Rng, st *Step, order int) []Chunk {
 			fragChunks = append(fragChunks, Chunk{Frags: []Frag{f}})
 		}
 	}
-	if len(fragChunks) > 1 && r.Chance(1, 3) { // several fragments in one chunk
-		fragChunks[0].Frags = append(fragChunks[0].Frags, fragChunks[1].Frags...)
-		fragChunks = append(fragChunks[:1], fragChunks[2:]...)
+	// several fragments in one chunk — of different calls only: a chunk that carries two
+	// fragments of the same call is not something a model emits, and a message streamed as
+	// that single chunk is handed on unmerged (ConcatMessageStream returns a lone chunk as is)
+	for i := 0; i+1 < len(fragChunks); i++ {
+		a, b := fragChunks[i].Frags, fragChunks[i+1].Frags
+		if a[len(a)-1].Index != b[0].Index && r.Chance(1, 3) {
+			fragChunks[i].Frags = append(a, b...)
+			fragChunks = append(fragChunks[:i+1], fragChunks[i+2:]...)
+		}
 	}
 	var out []Chunk
 	if r.Chance(1, 4) {
